@@ -51,13 +51,27 @@ def gen_case(rng):
     pool = genes if "gene" in kind else rids
     case = {"spec": spec, "kind": kind, "method": rng.choice(["fba", "fba", "fba", "linear moma"]) if kind.startswith(("single", "double")) else "fba",
             "as_objects": rng.random() < 0.5}
+    case["ref_order"] = rng.choice(["model", "reversed", "sorted"])
     if kind.startswith("single"):
         case["l1"] = rng.sample(pool, rng.randint(1, len(pool))) if rng.random() < 0.6 else None
+        if rng.random() < 0.08:
+            case["l1"] = []                                   # nothing requested: no rows
     elif kind.startswith("double"):
         case["l1"] = rng.sample(pool, rng.randint(1, len(pool))) if rng.random() < 0.6 else None
         case["l2"] = rng.sample(pool, rng.randint(1, len(pool))) if rng.random() < 0.6 else None
+        if rng.random() < 0.1:
+            case[rng.choice(["l1", "l2"])] = []
     else:
-        case["threshold"] = rng.choice([None, None, "1/2", "0"])
+        case["threshold"] = rng.choice([None, None, "1/2", "0", "0", "1/1000"])
+        case["threshold_int"] = rng.random() < 0.5           # 0 passed as int 0 or float 0.0
+    if kind.startswith("essential") and rng.random() < 0.4:
+        # a thin bypass next to a well-used reaction: knocking the reaction out leaves a growth far below 1 % of the optimum but above zero
+        cands = [r for r in spec["rxns"] if len(r["st"]) > 1 and fbagen.fr(r["ub"]) is not None and fbagen.fr(r["ub"]) >= 5]
+        if cands:
+            r0 = rng.choice(cands)
+            spec["rxns"].append({"id": "LEAK", "st": dict(r0["st"]), "lb": "0", "ub": rng.choice(["1/500", "1/1000", "1/200"]), "rule": ""})
+            if "gene" not in kind:
+                pool = pool + ["LEAK"]
     case["_pool"] = pool
     # state the model is in before the analysis: genes already non-functional (flag only, or properly knocked out)
     if genes and rng.random() < 0.35:
@@ -137,7 +151,8 @@ def check_case(case):
                         want.add(x)
             f = find_essential_genes if genes else find_essential_reactions
             try:
-                got = {x.id for x in f(m, threshold=None if thr is None else float(threshold), processes=1)}
+                tv = None if thr is None else (int(threshold) if case.get("threshold_int") and threshold == int(threshold) else float(threshold))
+                got = {x.id for x in f(m, threshold=tv, processes=1)}
             except Exception as e:
                 return [f"{f.__name__} raised {type(e).__name__}: {e}"], "ran"
             if (got - unsure) != (want - unsure):
@@ -159,6 +174,10 @@ def check_case(case):
         if method == "linear moma":
             refsol = pfba(m)
             ref = {r.id: F(float(refsol.fluxes[r.id])) for r in m.reactions}
+            if case.get("ref_order") == "reversed":
+                refsol.fluxes = refsol.fluxes.iloc[::-1]          # the same reference, its Series in another order than model.reactions
+            elif case.get("ref_order") == "sorted":
+                refsol.fluxes = refsol.fluxes.sort_index()
             kwargs["solution"] = refsol
         try:
             if kind.startswith("single"):
